@@ -371,9 +371,12 @@ func cancelWorker(req N) (resp N) {
 	switch {
 	case err == nil:
 		out["err"] = "nil"
-	case errors.Is(err, context.Canceled) || errors.Is(err, context.DeadlineExceeded) ||
-		strings.Contains(err.Error(), "context canceled") || strings.Contains(err.Error(), "deadline exceeded"):
+	case errors.Is(err, context.Canceled) || errors.Is(err, context.DeadlineExceeded):
 		out["err"] = "ctxerr"
+	case strings.Contains(err.Error(), "context canceled") || strings.Contains(err.Error(), "deadline exceeded"):
+		// the text of the context's error inside another error: errors.Is(err, ctx.Err()) is false for the host
+		out["err"] = "ctxtext"
+		out["msg"] = err.Error()
 	default:
 		out["err"] = "other"
 		out["msg"] = err.Error()
